@@ -40,18 +40,24 @@ L0 == [n |-> 0, v |-> 0, nx |-> 0, tl |-> 0, hd |-> 0]
 Init == /\ MemInit
         /\ pc = [t \in Threads |-> "idle"]
         /\ loc = [t \in Threads |-> L0]
-        /\ lin = MonInit(QInit)
+        /\ lin = [mon |-> MonInit(QInit), taken |-> {}, bad |-> "ok"]
         /\ budget = [t \in Threads |-> [push |-> MaxPush, pop |-> MaxPop]]
         /\ nextv = 1
         /\ nst = [n \in Nodes |-> IF n = 1 THEN "live" ELSE "free"]
         /\ inc = [n \in Nodes |-> 0]
         /\ g = [t \in Threads |-> [h |-> NoG, x |-> NoG, t |-> NoG]]
         /\ bad = "ok"
-        /\ last = [t |-> -1, k |-> "init", lab |-> "init", v |-> 0, ok |-> 1]
+        /\ last = [t |-> -1, k |-> "init", lab |-> "init", v |-> 0, ok |-> 1, n |-> 0]
 
 Goto(t, l) == pc' = [pc EXCEPT ![t] = l]
-Acc(t, k, lab, v, ok) == last' = [t |-> t, k |-> k, lab |-> lab, v |-> v, ok |-> ok]
-Return(t, r, v) == lin' = MonRet(lin, t, r, v) /\ Goto(t, "idle")
+Acc(t, k, lab, v, ok) == last' = [t |-> t, k |-> k, lab |-> lab, v |-> v, ok |-> ok, n |-> last.n + 1]    \* n: access counter
+\* `lin` = linearizability monitor (real-time order, SC) + conservation ghost (memory-model independent)
+IsPop(t) == pc[t] \in {"q_null", "q_data"}
+Return(t, r, v) == /\ lin' = [mon |-> MonRet(lin.mon, t, r, v),
+                              taken |-> IF IsPop(t) /\ r = 1 THEN lin.taken \cup {v} ELSE lin.taken,
+                              bad |-> IF IsPop(t) /\ r = 1 /\ lin.bad = "ok" /\ (v \notin 1 .. nextv - 1 \/ v \in lin.taken)
+                                        THEN "a value was popped twice or invented" ELSE lin.bad]
+                   /\ Goto(t, "idle")
 
 \* ---- abstract reclaimer -----------------------------------------------------------------------
 GuardOf(c) == IF c = 0 THEN NoG ELSE [n |-> c, i |-> inc[c], eff |-> nst[c] = "live"]
@@ -63,6 +69,9 @@ Destroy == /\ \E n \in Nodes : /\ nst[n] = "retired" /\ ~Protected(n)
                                /\ nst' = [nst EXCEPT ![n] = "dead"]
            /\ UNCHANGED <<pc, loc, lin, budget, nextv, inc, g, bad, last, memvars>>
 
+\* Note on weak memory: a guard acquisition of a real reclaimer (hazard pointers: publish, seq_cst fence, re-read; epochs: fenced
+\* region entry) never hands out a pointer that was replaced before the node's retirement became visible to the reclaimer.
+\* The abstract acquire therefore reads the latest message of the cell; all other loads may be stale as far as their order allows.
 \* ---- push ------------------------------------------------------------------------------------
 \* new node(std::move(value)): allocation + plain write of the payload + next = null (unpublished: no step needed)
 StartPush(t) == /\ pc[t] = "idle" /\ budget[t].push > 0
@@ -72,7 +81,7 @@ StartPush(t) == /\ pc[t] = "idle" /\ budget[t].push > 0
                      /\ nst' = [nst EXCEPT ![n] = "live"] /\ inc' = [inc EXCEPT ![n] = @ + 1]
                      /\ loc' = [loc EXCEPT ![t] = [L0 EXCEPT !.n = n, !.v = nextv]]
                      /\ PlainWr(t, DATA(n), nextv)
-                /\ lin' = MonCall(lin, t, "push", nextv, 0)
+                /\ lin' = [lin EXCEPT !.mon = MonCall(@, t, "push", nextv, 0)]
                 /\ nextv' = nextv + 1
                 /\ Goto(t, "p_init") /\ Acc(t, "call", "push", nextv, 1)
                 /\ UNCHANGED <<g, bad>>
@@ -82,7 +91,7 @@ p_init(t) == /\ pc[t] = "p_init"
              /\ Goto(t, "p_acqt")
              /\ UNCHANGED <<loc, lin, budget, nextv, nst, inc, g, bad, last>>
 p_acqt(t) == /\ pc[t] = "p_acqt"
-             /\ \E i \in Readable(t, TAIL, Ord["p_acqt"]) :
+             /\ \E i \in {Last(TAIL)} :      \* guard_ptr::acquire: publish + validate, never settles on a stale value (see note below)
                   /\ Load(t, TAIL, Ord["p_acqt"], i)
                   /\ g' = [g EXCEPT ![t].t = GuardOf(ValAt(TAIL, i))]
                   /\ Acc(t, "ld", "p_acqt", ValAt(TAIL, i), 1)
@@ -123,12 +132,12 @@ p_swing(t) == /\ pc[t] = "p_swing"
 \* ---- pop -------------------------------------------------------------------------------------
 StartPop(t) == /\ pc[t] = "idle" /\ budget[t].pop > 0
                /\ budget' = [budget EXCEPT ![t].pop = @ - 1]
-               /\ lin' = MonCall(lin, t, "pop", 0, 0)
+               /\ lin' = [lin EXCEPT !.mon = MonCall(@, t, "pop", 0, 0)]
                /\ loc' = [loc EXCEPT ![t] = L0]
                /\ Goto(t, "q_acqh") /\ Acc(t, "call", "pop", 0, 1)
                /\ UNCHANGED <<nextv, nst, inc, g, bad, memvars>>
 q_acqh(t) == /\ pc[t] = "q_acqh"
-             /\ \E i \in Readable(t, HEAD, Ord["q_acqh"]) :
+             /\ \E i \in {Last(HEAD)} :      \* guard_ptr::acquire: publish + validate, never settles on a stale value (see note below)
                   /\ Load(t, HEAD, Ord["q_acqh"], i)
                   /\ g' = [g EXCEPT ![t].h = GuardOf(ValAt(HEAD, i)), ![t].x = NoG]
                   /\ Acc(t, "ld", "q_acqh", ValAt(HEAD, i), 1)
@@ -137,7 +146,7 @@ q_acqh(t) == /\ pc[t] = "q_acqh"
 q_acqn(t) == /\ pc[t] = "q_acqn"
              /\ Touch(g[t].h, "pop reads next of a destroyed head node")
              /\ LET x == NEXT(g[t].h.n) IN
-                \E i \in Readable(t, x, Ord["q_acqn"]) :
+                \E i \in {Last(x)} :
                    /\ Load(t, x, Ord["q_acqn"], i)
                    /\ g' = [g EXCEPT ![t].x = GuardOf(ValAt(x, i))]
                    /\ Acc(t, "ld", "q_acqn", ValAt(x, i), 1)
@@ -191,6 +200,7 @@ Next == Destroy \/ \E t \in Threads : ThreadStep(t)
 Spec == Init /\ [][Next]_vars
 
 \* C04 (+ C01 on the container side): linearizable FIFO, never touches a destroyed node
-Linearizable == lin # {}
+Linearizable == lin.mon # {}
+Conservation == lin.bad = "ok"
 MemorySafe == bad = "ok"
 =============================================================================
